@@ -47,12 +47,12 @@ PROPS = {
                 "containing a closing brace or a rule header). Second stream: bare when clauses (depth to 6, metacharacter strings in half of them, arbitrary blanks and redundant parentheses) through the hook "
                 "verif_parse_when_clause, compared with the Coq model of the condition-tree parser AND with the written tree. Observed per rule: name, salience, flags, groups, dates, condition tree, action list. "
                 "non-trivial = at least one rule Negated negations are generated and printed side by side (!!(..), ! !(..)) as well as parenthesised.",
-        "level_text": "The splitting layer below the regular expressions is modelled and proved (Model/GrlSplit.v): string literals in either quote character are opaque to the statement split of parse_then_clause, to split_arguments and to find_outside_strings, whatever they contain except their own quote; statements joined by ';' and arguments joined by ',' come back piece for piece; the slices around `=` / `+=` are on character boundaries for every statement. The three functions are compared with the model on arbitrary texts through hooks (exact prediction). Theorems (Coq): the condition-tree parser recovers the written tree - for EVERY tree of comparisons joined by &&, || and !( ), any depth, any number of redundant parenthesis pairs, leaves being neutral texts "
+        "level_text": "The splitting layer below the regular expressions is modelled and proved (Model/GrlSplit.v): string literals in either quote character are opaque to the statement split of parse_then_clause, to split_arguments and to find_outside_strings, whatever they contain except their own quote; statements joined by ';' and arguments joined by ',' come back piece for piece; the slices around `=` / `+=` are on character boundaries for every statement. The rule-block and attribute braces are the first `}` / `{` outside literals (C04_rule_block_ends_at_the_written_brace, C04_attributes_end_at_the_written_brace) and a literal is opaque to the search for `then` (split_when_then is modelled too). The four functions are compared with the model on arbitrary texts through hooks (exact prediction). Theorems (Coq): the condition-tree parser recovers the written tree - for EVERY tree of comparisons joined by &&, || and !( ), any depth, any number of redundant parenthesis pairs, leaves being neutral texts "
                 "(proved for ordinary text optionally followed by a string literal with arbitrary content), parse_when (print tree) = tree: && binds tighter than ||, parentheses and ! respected. Lemmas for every text: string literals are opaque to the condition splitter (whatever stands between two equal quote characters never separates conditions, at any depth, for any continuation); "
                 "parentheses protect (a text that may split at its own top level does not split once parenthesised); a top-level && / || between two non-splitting texts separates exactly there into exactly the two trimmed "
                 "texts; such texts compose. The model of parse_when_clause / split_logical_operator / the single-comparison pattern is compared with the code on every generated clause; the Coq-defined expectation exp_rule "
                 "(what was written, independent of layout by construction) is compared with the parser's output on every generated file.",
-        "level_note": "Partial: the front end that carves a file into rules and a rule into header / when / then (two regular expressions of rexile for the rule header and the attributes, quote-aware scans for the block, the braces and the `then`) is not modelled - its result is observed and compared with exp_rule; Known finding (monitor class 5): the `$Obj.method(args)` action form comes back as the custom action `method(args)` (the method-call pattern never matches; class 5 only when the observation is exactly the expectation with that substitution). The former findings about braces in string literals / descriptions, `then` in a string literal and braces or rule headers in comments were repaired (96b5934, fded141, 631953a) and are checked like everything else. Trusted: Coq kernel; model of grl.rs after fixes 804c5fd ee6c06e b8f8cd8 f796657 389caa3 7515c16 fbc30e7 751cd5b 4ea3eb2 601e5f7 94337f6 96b5934 (comments removed before the rule split; former class 4) fded141 (quote-aware when / then split; former class 3) 631953a (rule blocks and headers end at braces outside string literals; former classes 2 and 6); hooks 26bcb2e de17ceb; harness; extraction. Axioms: none.",
+        "level_note": "Partial: the front end that carves a file into rules and a rule into header / when / then (two regular expressions of rexile for the rule header and the attributes, quote-aware scans for the block, the braces and the `then`) is not modelled - its result is observed and compared with exp_rule; Known finding (monitor class 5): the `$Obj.method(args)` action form comes back as the custom action `method(args)` (the method-call pattern never matches; class 5 only when the observation is exactly the expectation with that substitution). The former findings about braces in string literals / descriptions, `then` in a string literal and braces or rule headers in comments were repaired (96b5934, fded141, 631953a) and are checked like everything else. Trusted: Coq kernel; model of grl.rs after fixes 804c5fd ee6c06e b8f8cd8 f796657 389caa3 7515c16 fbc30e7 751cd5b 4ea3eb2 601e5f7 94337f6 96b5934 (comments removed before the rule split; former class 4) fded141 (quote-aware when / then split; former class 3) 631953a (rule blocks and headers end at braces outside string literals; former classes 2 and 6); hooks 26bcb2e de17ceb 23605b3; harness; extraction. Axioms: none.",
         "trusted_base": ["rexile 0.5.8 regular expressions of grl.rs: not modelled"],
         "assumptions": ["string literals contain no quote character of their own kind (GRL has no escape sequences)", "dates in the form YYYY-MM-DD"],
     },
